@@ -54,6 +54,11 @@ def _parse_sid(text):
     return text
 
 
+@parse.with_pattern(r"k\d*[02468]")
+def _parse_sid_even(text):
+    return text
+
+
 @parse.with_pattern(r"a\d+")
 def _parse_asid(text):
     return text.upper()      # a converter whose result is a string DIFFERENT from the matched text ("a12" -> "A12")
@@ -90,7 +95,7 @@ class RunLab(object):
         self.StepNotImplementedError = StepNotImplementedError
         self.async_run_until_complete = async_run_until_complete
         self.TagExpressionProtocol = TagExpressionProtocol
-        self.types = {"Sid": _parse_sid, "ASid": _parse_asid, "Bad": _parse_bad}
+        self.types = {"Sid": _parse_sid, "SidEven": _parse_sid_even, "ASid": _parse_asid, "Bad": _parse_bad}
         self.parse_cache = {}
 
     # ------------------------------------------------------------------
@@ -121,8 +126,17 @@ class RunLab(object):
         def step_bad(context, sid, rest):      # never reached: the converter raises first
             state.calls.append(("<bad-called>", sid + " " + rest))
 
-        for fn, pat in ((step_sync, "{sid:Sid} {rest}"), (step_async, "{sid:ASid} {rest}"), (step_bad, "{sid:Bad} {rest}")):
+        def step_optional_part(context, sid, mark, rest):
+            # a definition with an optional part that is absent from the step text: the parameter arrives as None (the function
+            # has no default for it)
+            if mark is not None:
+                state.calls.append(("<optional-part-not-None>", repr(mark)))
+            lab.on_step(state, context, sid + " " + rest)
+
+        from behave.matchers import RegexMatcher
+        for fn, pat in ((step_sync, "{sid:SidEven} {rest}"), (step_async, "{sid:ASid} {rest}"), (step_bad, "{sid:Bad} {rest}")):
             reg.steps["step"].append(self.ParseMatcher(fn, pat, "step", custom_types=self.types))
+        reg.steps["step"].append(RegexMatcher(step_optional_part, r"(?P<sid>k\d*[13579])(?P<mark>\?)? (?P<rest>.+)", "step"))
         cuke_texts = [t for t in state.outcomes if t[:1] == "c"]
         if cuke_texts:
             from behave.cucumber_expression import StepMatcher4CucumberExpressions
